@@ -105,6 +105,7 @@ func theKeys() map[string]*key {
 		// scripted fakes: "bad" signs garbage under k1's name and hash; "yes" is a verifier that accepts anything
 		keys["bad"] = &key{id: "bad", signer: fakeSigner{"k1.example", keys["k1"].ver.KeyHash(), []byte("not a signature at all, 64 bytes long, padded to the usual length")}, ver: keys["k1"].ver, pub: keys["k1"].pub}
 		keys["dup"] = &key{id: "dup", signer: keys["k1"].signer, ver: fakeVerifier{"k1.example", keys["k1"].ver.KeyHash(), true}}
+		keys["dup2"] = &key{id: "dup2", signer: keys["k1"].signer, ver: fakeVerifier{"k1.example", keys["k1"].ver.KeyHash(), true}}
 	})
 	return keys
 }
@@ -609,10 +610,13 @@ func Run(r *fw.Run) {
 	ks := theKeys()
 	_ = ks
 	signerSets := [][]string{{}, {"k1"}, {"k2"}, {"k3"}, {"k1", "k2"}, {"k2", "k1"}, {"k1", "k3"}, {"k1", "k2", "k3"}, {"bad"}, {"bad", "k2"}, {"k1", "k1"}, {"k2", "bad"}}
-	verSets := [][]string{{}, {"k1"}, {"k2"}, {"k3"}, {"k1", "k2"}, {"k1", "k3"}, {"k1", "k2", "k3"}, {"k1", "dup"}, {"k2", "k1", "dup"}}
+	verSets := [][]string{{}, {"k1"}, {"k2"}, {"k3"}, {"k1", "k2"}, {"k1", "k3"}, {"k1", "k2", "k3"}, {"k1", "dup"}, {"k2", "k1", "dup"}, {"k1", "dup", "dup2"}, {"dup", "dup2", "k1"}, {"k1", "k1", "k1"}, {"k1", "dup", "k2", "dup2", "dup", "k1"}, {"dup", "k1", "dup2", "k1", "dup"}}
 	run := func(kind string, text string, l *fw.Local) {
 		for _, ss := range signerSets {
-			for _, vs := range verSets {
+			for vi, vs := range verSets {
+				if vi >= 9 && len(text) > 2 {
+					continue // the sets with three and more copies of one key: short texts only
+				}
 				l.Execs++
 				l.Transitions++
 				msg, class := signOpen(text, ss, vs)
@@ -714,7 +718,10 @@ func Run(r *fw.Run) {
 	fw.Parallel(16, func(sh int) {
 		l := fw.NewLocal()
 		for i := sh; i < len(msgs); i += 16 {
-			for _, vs := range verSets {
+			for vi, vs := range verSets {
+				if vi >= 9 && (i%7 != 0 || len(msgs[i]) > 4000) {
+					continue // the sets with three and more copies of one key: every seventh short message
+				}
 				l.States++
 				l.Execs++
 				l.Transitions++
